@@ -1,20 +1,31 @@
 (* C19 -- Quality values order content negotiation.
    Only final statements here, each closed by [exact] and followed by Print Assumptions.
-   Model: Model/Accept.v ([elements star f] = Headers.elements(name) for Accept, Accept-Charset, Accept-Encoding,
+   Model: Model/Accept.v ([elements vq vx star f] = Headers.elements(name) for Accept, Accept-Charset, Accept-Encoding,
    Accept-Language, TE; [star] = the field class rewrites "*" to "*/*").  The value float() gives to a q text is a
    parameter [parse_q : bool -> bytes -> qres Q] (QVal v | QBad = ValueError | QUnk = outside the model), its == and <
    are [qeqb], [qltb]; [float_order] says they come from one total preorder (IEEE doubles without NaN; NaN and the
    infinities are refused after the repair of D24).  All theorems hold for every such instance and for field values of
-   any length; [FOk es] is the only outcome in which elements are returned. *)
+   any length; [FOk es] is the only outcome in which elements are returned.
+   The model is indexed by two variants (Lib/Variant.v): [vq] - an empty q text gives the quality None (AsFound) or is
+   handed to float() and refused (Repaired, finding D25-empty-q); [vx] - accept-ext parameters after the quality value
+   make the element invalid (AsFound) or are kept as parameters after q (Repaired, finding D25-accept-ext-rejected).
+   [C19_tree_is_repaired] says which one the working tree implements (T1 probes, regenerated on every run).  Theorems
+   quantified over [vq vx] hold for both; the ones that need a repair name [Repaired]; the [_refuted] ones are the
+   witnesses of the two findings on the model of the code as found. *)
 From Coq Require Import ZArith Sorting.Sorted Sorting.Permutation.
 From Httoop Require Import Model.ElemLex Model.Accept Proofs.ElemLex Proofs.SortLemmas Proofs.Accept Proofs.AcceptRender.
 Local Open Scope N_scope.
+
+(* the working tree carries both repairs (breaks, with the old failing inputs reported by the oracle, when one is reverted) *)
+Theorem C19_tree_is_repaired : EMPTY_Q_VARIANT = Repaired /\ ACCEPT_EXT_VARIANT = Repaired.
+Proof. exact (conj eq_refl eq_refl). Qed.
+Print Assumptions C19_tree_is_repaired.
 
 Example C19_float_order_nonvacuous : float_order Z.eqb Z.ltb Z.leb.
 Proof. exact float_order_Z. Qed.
 
 (* the comparison handed to sorted() (__lt__: quality, then rendered text) is a strict weak order on the elements
-   of a field (all qualities numeric, k = true, or all None, k = false) *)
+   of a field (all qualities numeric, k = true, or - only as found - all None, k = false) *)
 Theorem C19_lt_strict_weak_order : forall (Q : Type) (qeqb qltb qleb : Q -> Q -> bool),
   float_order qeqb qltb qleb -> forall k : bool,
   (forall a : @elem Q, uniform k a -> lt_elem qeqb qltb a a = false) /\
@@ -27,126 +38,187 @@ Print Assumptions C19_lt_strict_weak_order.
 
 (* clause 1: the elements are returned in non-increasing order of quality: no element is followed (at any distance)
    by one of strictly greater quality *)
-Theorem C19_sorted : forall (Q : Type) (parse_q : bool -> bytes -> qres Q) (qeqb qltb qleb : Q -> Q -> bool),
+Theorem C19_sorted : forall (Q : Type) (parse_q : bool -> bytes -> qres Q) (qeqb qltb qleb : Q -> Q -> bool) (vq vx : variant),
   float_order qeqb qltb qleb -> forall (star : bool) (f : bytes) (es : list elem),
-  elements parse_q qeqb qltb star f = FOk es ->
+  elements parse_q qeqb qltb vq vx star f = FOk es ->
   StronglySorted (fun a b => oq_ltb qltb (e_quality a) (e_quality b) = false) es.
 Proof. exact @b_sorted. Qed.
 Print Assumptions C19_sorted.
 
 (* ... in fact sorted for the full comparison (ties in quality are in descending text order) *)
-Theorem C19_sorted_full : forall (Q : Type) (parse_q : bool -> bytes -> qres Q) (qeqb qltb qleb : Q -> Q -> bool),
+Theorem C19_sorted_full : forall (Q : Type) (parse_q : bool -> bytes -> qres Q) (qeqb qltb qleb : Q -> Q -> bool) (vq vx : variant),
   float_order qeqb qltb qleb -> forall (star : bool) (f : bytes) (es : list elem),
-  elements parse_q qeqb qltb star f = FOk es ->
+  elements parse_q qeqb qltb vq vx star f = FOk es ->
   StronglySorted (fun a b => lt_elem qeqb qltb a b = false) es.
 Proof. exact @b_sorted_elem. Qed.
 Print Assumptions C19_sorted_full.
 
 (* "absent meaning 1" *)
-Theorem C19_absent_is_one : forall (Q : Type) (parse_q : bool -> bytes -> qres Q) (qeqb qltb : Q -> Q -> bool)
+Theorem C19_absent_is_one : forall (Q : Type) (parse_q : bool -> bytes -> qres Q) (qeqb qltb : Q -> Q -> bool) (vq vx : variant)
   (star : bool) (f : bytes) (es : list elem) (e : elem) (q1 : Q),
-  elements parse_q qeqb qltb star f = FOk es -> In e es ->
+  elements parse_q qeqb qltb vq vx star f = FOk es -> In e es ->
   get_param QKEY (e_params e) = None -> parse_q false ONE = QVal q1 -> e_quality e = Some q1.
 Proof. exact @elements_absent_is_one. Qed.
 Print Assumptions C19_absent_is_one.
 
 (* clause 2: every listed element is returned exactly once with its parameters: the result is a permutation of the
    elements parsed from the comma-separated pieces (split outside double quotes), in particular of the same length *)
-Theorem C19_permutation : forall (Q : Type) (parse_q : bool -> bytes -> qres Q) (qeqb qltb : Q -> Q -> bool)
+Theorem C19_permutation : forall (Q : Type) (parse_q : bool -> bytes -> qres Q) (qeqb qltb : Q -> Q -> bool) (vq vx : variant)
   (star : bool) (f : bytes) (es : list elem),
-  elements parse_q qeqb qltb star f = FOk es ->
-  exists ps, Forall2 (fun p e => accept_parse parse_q star (strip p) = EOk e) (pieces f) ps /\ Permutation ps es.
+  elements parse_q qeqb qltb vq vx star f = FOk es ->
+  exists ps, Forall2 (fun p e => accept_parse parse_q vq vx star (strip p) = EOk e) (pieces f) ps /\ Permutation ps es.
 Proof. exact @elements_permutation. Qed.
 Print Assumptions C19_permutation.
 
-(* clause 2 from the field text, for well-formed elements ([wf_elem]: a value without white space ; , double quote ?,
-   lower-case ASCII token parameters with distinct names other than q, a token as q text; rendered "v;k=x;...;q=t" and
-   joined with ", "): every listed element is read back with exactly its value, its parameters in order and its q
-   parameter, and the field is returned (sorted) whenever every q text (or "1") is a number *)
-Theorem C19_element_read_back : forall (Q : Type) (parse_q : bool -> bytes -> qres Q) (star : bool)
-  (el : bytes * list (bytes * bytes) * option bytes) (q : Q),
-  wf_elem el = true -> parse_q (fst (q_of el)) (snd (q_of el)) = QVal q ->
-  accept_parse parse_q star (render_elem el) = EOk (expected star el q).
+(* clause 2 from the field text, for well-formed elements ([wf_elem vx]: a value without white space ; , double quote ?,
+   lower-case ASCII token parameters with distinct names other than q, a token as q text and - when the model supports
+   them, vx = Repaired - accept-ext parameters of the same form after it, their names distinct, not q and not the name
+   of a media-range parameter; rendered "v;k=x;...;q=t;e=y;..." and joined with ", "): every listed element, with or
+   without accept-ext parameters, is read back with exactly its value, its parameters in order (media-range parameters,
+   q, accept-ext parameters) and the quality float() gives to its q text, and the field is returned (sorted) whenever
+   every q text (or "1") is a number *)
+Theorem C19_element_read_back : forall (Q : Type) (parse_q : bool -> bytes -> qres Q) (vq vx : variant) (star : bool)
+  (el : xel) (q : Q),
+  wf_elem vx el = true -> parse_q (fst (q_of el)) (snd (q_of el)) = QVal q ->
+  accept_parse parse_q vq vx star (render_elem el) = EOk (expected star el q).
 Proof. exact @accept_parse_render. Qed.
 Print Assumptions C19_element_read_back.
-Theorem C19_wellformed_field_returned : forall (Q : Type) (parse_q : bool -> bytes -> qres Q) (qeqb qltb : Q -> Q -> bool)
-  (star : bool) (els : list (bytes * list (bytes * bytes) * option bytes)) (es0 : list elem),
-  els <> [] -> forallb wf_elem els = true ->
+Theorem C19_wellformed_field_returned : forall (Q : Type) (parse_q : bool -> bytes -> qres Q) (qeqb qltb : Q -> Q -> bool) (vq vx : variant)
+  (star : bool) (els : list xel) (es0 : list elem),
+  els <> [] -> forallb (wf_elem vx) els = true ->
   Forall2 (fun el e => exists q, parse_q (fst (q_of el)) (snd (q_of el)) = QVal q /\ e = expected star el q) els es0 ->
-  elements parse_q qeqb qltb star (render_field els) = FOk (sorted_rev (lt_elem qeqb qltb) es0).
+  elements parse_q qeqb qltb vq vx star (render_field els) = FOk (sorted_rev (lt_elem qeqb qltb) es0).
 Proof. exact @elements_render. Qed.
 Print Assumptions C19_wellformed_field_returned.
+(* what was well formed for the code as found (no accept-ext parameters) still is *)
+Theorem C19_wellformed_monotone : forall (vx : variant) (el : xel), wf_elem AsFound el = true -> wf_elem vx el = true.
+Proof. exact wf_elem_mono. Qed.
+Print Assumptions C19_wellformed_monotone.
 Example C19_wellformed_nonvacuous :
-  let els := [(X "746578742f68746d6c", [(X "6c6576656c", X "31")], Some (X "302e37")); (X "2a2f2a", [], None)] in
-  forallb wf_elem els = true /\ render_field els = X "746578742f68746d6c3b6c6576656c3d313b713d302e372c202a2f2a".
+  let els := [(X "746578742f68746d6c", [(X "6c6576656c", X "31")], Some (X "302e37", [])); (X "2a2f2a", [], None)] in
+  forallb (wf_elem AsFound) els = true /\ render_field els = X "746578742f68746d6c3b6c6576656c3d313b713d302e372c202a2f2a".
 Proof. vm_compute. split; reflexivity. Qed.
+(* text/html;level=1;q=0.7;ext=1;tok=x, */*;q=0.1;e=2  is well formed after the repair (and not before) *)
+Example C19_wellformed_ext_nonvacuous :
+  let els := [(X "746578742f68746d6c", [(X "6c6576656c", X "31")], Some (X "302e37", [(X "657874", X "31"); (X "746f6b", X "78")])); (X "2a2f2a", [], Some (X "302e31", [(X "65", X "32")]))] in
+  forallb (wf_elem Repaired) els = true /\ forallb (wf_elem AsFound) els = false /\
+  render_field els = X "746578742f68746d6c3b6c6576656c3d313b713d302e373b6578743d313b746f6b3d782c202a2f2a3b713d302e313b653d32".
+Proof. vm_compute. repeat split; reflexivity. Qed.
 
 (* the quantifier's "all orderings of the same list": two fields whose listed elements are permutations of one another
    are both accepted, return the same multiset, and the same sequence of qualities *)
-Theorem C19_order_invariant : forall (Q : Type) (parse_q : bool -> bytes -> qres Q) (qeqb qltb qleb : Q -> Q -> bool),
+Theorem C19_order_invariant : forall (Q : Type) (parse_q : bool -> bytes -> qres Q) (qeqb qltb qleb : Q -> Q -> bool) (vq vx : variant),
   float_order qeqb qltb qleb -> forall (star : bool) (f f' : bytes) (es ps ps' : list elem),
-  Forall2 (fun p e => accept_parse parse_q star (strip p) = EOk e) (pieces f) ps ->
-  Forall2 (fun p e => accept_parse parse_q star (strip p) = EOk e) (pieces f') ps' ->
+  Forall2 (fun p e => accept_parse parse_q vq vx star (strip p) = EOk e) (pieces f) ps ->
+  Forall2 (fun p e => accept_parse parse_q vq vx star (strip p) = EOk e) (pieces f') ps' ->
   Permutation ps ps' ->
-  elements parse_q qeqb qltb star f = FOk es ->
-  exists es', elements parse_q qeqb qltb star f' = FOk es' /\ Permutation es es' /\
+  elements parse_q qeqb qltb vq vx star f = FOk es ->
+  exists es', elements parse_q qeqb qltb vq vx star f' = FOk es' /\ Permutation es es' /\
     Forall2 (fun a b => oq_eqb qeqb (e_quality a) (e_quality b) = true) es es'.
 Proof. exact @b_order_invariant. Qed.
 Print Assumptions C19_order_invariant.
 
-(* clause 3: a listed element whose non-empty q text is not a number makes the field invalid
-   ([q_source] = the text _AcceptElement.parse hands to float(); FUnmodelled can only arise from another element
-   of the same field that is outside the model) ... *)
-Theorem C19_malformed_q_invalid : forall (Q : Type) (parse_q : bool -> bytes -> qres Q) (qeqb qltb : Q -> Q -> bool)
+(* clause 3: a listed element whose q text is not a number makes the field invalid - for a non-empty q text in both
+   variants, for the empty one after the repair ([q_source] = the text _AcceptElement.parse hands to float(): the text up
+   to the first ';' after the q separator; FUnmodelled can only arise from another element of the same field that is
+   outside the model) ... *)
+Theorem C19_malformed_q_invalid : forall (Q : Type) (parse_q : bool -> bytes -> qres Q) (qeqb qltb : Q -> Q -> bool) (vq vx : variant)
   (star : bool) (f p : bytes) (b : bool) (t : bytes),
   isnil f = false -> In p (qsplit COMMA f) ->
-  q_source (strip p) = Some (b, t) -> isnil t = false -> parse_q b t = QBad ->
-  elements parse_q qeqb qltb star f = FInvalid \/ elements parse_q qeqb qltb star f = FUnmodelled.
+  q_source vx (strip p) = Some (b, t) -> vq = Repaired \/ isnil t = false -> parse_q b t = QBad ->
+  elements parse_q qeqb qltb vq vx star f = FInvalid \/ elements parse_q qeqb qltb vq vx star f = FUnmodelled.
 Proof. exact @malformed_q_invalid. Qed.
 Print Assumptions C19_malformed_q_invalid.
 
-(* ... equivalently, on the result: every returned element has a q text that is empty or that float() accepted, and
-   its quality is that value *)
-Theorem C19_returned_quality_is_number : forall (Q : Type) (parse_q : bool -> bytes -> qres Q) (qeqb qltb : Q -> Q -> bool)
+(* ... after the repair without any exception: whatever float() refuses, the empty text included, makes the field invalid *)
+Theorem C19_malformed_q_invalid_repaired : forall (Q : Type) (parse_q : bool -> bytes -> qres Q) (qeqb qltb : Q -> Q -> bool) (vx : variant)
+  (star : bool) (f p : bytes) (b : bool) (t : bytes),
+  isnil f = false -> In p (qsplit COMMA f) ->
+  q_source vx (strip p) = Some (b, t) -> parse_q b t = QBad ->
+  elements parse_q qeqb qltb Repaired vx star f = FInvalid \/ elements parse_q qeqb qltb Repaired vx star f = FUnmodelled.
+Proof. exact @malformed_q_invalid_repaired. Qed.
+Print Assumptions C19_malformed_q_invalid_repaired.
+
+(* ... equivalently, on the result: every returned element has the quality float() gave to its q text; the one
+   exception - an empty q text, quality None - exists only in the code as found *)
+Theorem C19_returned_quality_is_number : forall (Q : Type) (parse_q : bool -> bytes -> qres Q) (qeqb qltb : Q -> Q -> bool) (vq vx : variant)
   (star : bool) (f : bytes) (es : list elem) (e : elem),
-  elements parse_q qeqb qltb star f = FOk es -> In e es ->
-  (isnil (q_text e) = true /\ e_quality e = None) \/
-  (isnil (q_text e) = false /\ exists q, parse_q (e_qbytes e) (q_text e) = QVal q /\ e_quality e = Some q).
+  elements parse_q qeqb qltb vq vx star f = FOk es -> In e es ->
+  (vq = AsFound /\ isnil (q_text e) = true /\ e_quality e = None) \/
+  ((vq = Repaired \/ isnil (q_text e) = false) /\ exists q, parse_q (e_qbytes e) (q_text e) = QVal q /\ e_quality e = Some q).
 Proof. exact @elements_quality_is_number. Qed.
 Print Assumptions C19_returned_quality_is_number.
+Theorem C19_returned_quality_is_number_repaired : forall (Q : Type) (parse_q : bool -> bytes -> qres Q) (qeqb qltb : Q -> Q -> bool) (vx : variant)
+  (star : bool) (f : bytes) (es : list elem) (e : elem),
+  elements parse_q qeqb qltb Repaired vx star f = FOk es -> In e es ->
+  exists q, parse_q (e_qbytes e) (q_text e) = QVal q /\ e_quality e = Some q.
+Proof. exact @elements_numeric_repaired. Qed.
+Print Assumptions C19_returned_quality_is_number_repaired.
+
+(* sorting is total after the repair: the comparison never meets None (every element of a returned field is numeric, so
+   C19_lt_strict_weak_order applies with k = true), and the TypeError outcome does not exist *)
+Theorem C19_all_numeric_repaired : forall (Q : Type) (parse_q : bool -> bytes -> qres Q) (qeqb qltb : Q -> Q -> bool) (vx : variant)
+  (star : bool) (f : bytes) (es : list elem),
+  elements parse_q qeqb qltb Repaired vx star f = FOk es -> Forall (uniform true) es.
+Proof. exact @elements_uniform_repaired. Qed.
+Print Assumptions C19_all_numeric_repaired.
+Theorem C19_no_typeerror_repaired : forall (Q : Type) (parse_q : bool -> bytes -> qres Q) (qeqb qltb : Q -> Q -> bool) (vx : variant)
+  (star : bool) (f : bytes),
+  elements parse_q qeqb qltb Repaired vx star f <> FTypeError.
+Proof. exact @elements_no_typeerror_repaired. Qed.
+Print Assumptions C19_no_typeerror_repaired.
 
 (* ... where, for the concrete value function of the correspondence run, "not a number" is exactly: float() raises
-   ValueError, or the text reads as NaN or an infinity (repair of D24) *)
+   ValueError (as it does for the empty text), or the text reads as NaN or an infinity (repair of D24) *)
 Theorem C19_not_a_number_concrete : forall (b : bool) (t : bytes),
   concrete_q b t = QBad <-> (float_parse b t = FErr \/ exists neg w, float_parse b t = FSpecial neg w).
 Proof. exact concrete_bad. Qed.
 Print Assumptions C19_not_a_number_concrete.
-Example C19_malformed_nonvacuous :
-  q_source (X "612f623b713d6f6e65") = Some (true, X "6f6e65") /\ concrete_q true (X "6f6e65") = QBad /\
-  q_source (X "612f623b713d6e616e") = Some (true, X "6e616e") /\ concrete_q true (X "6e616e") = QBad /\
-  celements true (X "632f642c20612f623b713d6f6e65") = FInvalid.
+Theorem C19_empty_is_not_a_number_concrete : forall b : bool, concrete_q b [] = QBad.
+Proof. exact concrete_empty_bad. Qed.
+Print Assumptions C19_empty_is_not_a_number_concrete.
+Example C19_malformed_nonvacuous : forall vq vx : variant,
+  q_source vx (X "612f623b713d6f6e65") = Some (true, X "6f6e65") /\ concrete_q true (X "6f6e65") = QBad /\
+  q_source vx (X "612f623b713d6e616e") = Some (true, X "6e616e") /\ concrete_q true (X "6e616e") = QBad /\
+  celements vq vx true (X "632f642c20612f623b713d6f6e65") = FInvalid.
 Proof. exact example_malformed. Qed.
-Example C19_sorted_nonvacuous :
-  match celements true (X "612f623b713d302e352c20632f64") with
+Example C19_sorted_nonvacuous : forall vq vx : variant,
+  match celements vq vx true (X "612f623b713d302e352c20632f64") with
   | FOk [e1; e2] => e_value e1 = X "632f64" /\ e_value e2 = X "612f62" /\
                     e_quality e1 = Some (10 ^ 40)%Z /\ e_quality e2 = Some (5 * 10 ^ 39)%Z
   | _ => False
   end.
 Proof. exact example_sorted. Qed.
 
-(* Known findings on the faithful model.
-   FULL STATEMENTS (false): (a) every returned element has a numeric quality; (b) elements() only ever returns or
+(* The two repaired findings (D25) on concrete inputs, computed on the model of the repaired code:
+   "a/b;q=, c/d" and "a/b;q=" are invalid; "text/html;q=0.5;ext=1" is returned with quality 0.5, its parameters q and ext
+   in this order, composed as "text/html; q=0.5; ext=1". *)
+Theorem C19_empty_q_invalid_repaired : forall vx : variant,
+  celements Repaired vx true (X "612f623b713d2c20632f64") = FInvalid /\ celements Repaired vx true (X "612f623b713d") = FInvalid.
+Proof. exact empty_q_invalid_repaired. Qed.
+Print Assumptions C19_empty_q_invalid_repaired.
+Theorem C19_accept_ext_returned_repaired : forall vq : variant,
+  match celements vq Repaired true (X "746578742f68746d6c3b713d302e353b6578743d31") with
+  | FOk [e] => e_value e = X "746578742f68746d6c" /\ e_params e = [(X "71", X "302e35"); (X "657874", X "31")] /\
+               e_quality e = Some (5 * 10 ^ 39)%Z /\ e_text e = X "746578742f68746d6c3b20713d302e353b206578743d31"
+  | _ => False
+  end.
+Proof. exact accept_ext_returned_repaired. Qed.
+Print Assumptions C19_accept_ext_returned_repaired.
+
+(* The same findings on the faithful model of the code AS FOUND (what the check reported before the repairs).
+   FULL STATEMENTS (false as found): (a) every returned element has a numeric quality; (b) elements() only ever returns or
    raises InvalidHeader; (c) a field all of whose quality values are numbers is returned.
-   D25 (second part), empty q text: (a) refuted by a returned quality None, (b) by a TypeError as soon as another
-   element is numeric; the partial version of (a) is C19_returned_quality_is_number (non-empty q text => numeric).
-   D25 (first part), accept-ext after q: (c) refuted, the field is invalid although its q text 0.5 is a number. *)
-Theorem C19_quality_numeric_refuted : exists es e, celements true (X "612f623b713d") = FOk es /\ In e es /\ e_quality e = None.
+   D25-empty-q: (a) refuted by a returned quality None, (b) by a TypeError as soon as another element is numeric.
+   D25-accept-ext-rejected: (c) refuted, the field is invalid although its q text 0.5 is a number. *)
+Theorem C19_quality_numeric_refuted : forall vx : variant,
+  exists es e, celements AsFound vx true (X "612f623b713d") = FOk es /\ In e es /\ e_quality e = None.
 Proof. exact empty_q_none. Qed.
 Print Assumptions C19_quality_numeric_refuted.
-Theorem C19_no_typeerror_refuted : celements true (X "612f623b713d2c20632f64") = FTypeError.
+Theorem C19_no_typeerror_refuted : forall vx : variant, celements AsFound vx true (X "612f623b713d2c20632f64") = FTypeError.
 Proof. exact empty_q_typeerror. Qed.
 Print Assumptions C19_no_typeerror_refuted.
-Theorem C19_accept_ext_refuted :
-  celements true (X "746578742f68746d6c3b713d302e353b6578743d31") = FInvalid /\ concrete_q true (X "302e35") = QVal (5 * 10 ^ 39)%Z.
+Theorem C19_accept_ext_refuted : forall vq : variant,
+  celements vq AsFound true (X "746578742f68746d6c3b713d302e353b6578743d31") = FInvalid /\ concrete_q true (X "302e35") = QVal (5 * 10 ^ 39)%Z.
 Proof. exact accept_ext_rejected. Qed.
 Print Assumptions C19_accept_ext_refuted.
